@@ -20,7 +20,9 @@ cache per direction), `planHistory` a whole request sequence.
   5. `planStep_deterministic`, `planHistory_deterministic`
   6. `planStep_other_direction`, `planStep_returns_cached`, `planStep_idempotent`, `planStep_keeps_instances`,
      `planHistory_later_same`  direction separation; the instance returned is the cached one, now and later
-  7. canonicity (the tree for `len` is the fresh planner's tree whatever the history)   -- OPEN, see the end
+  7. `planStep_canonical`, `planHistory_canonical`, `planHistory_history_independent`, `avx_tree_depends_on_history`
+                               scalar / SSE: the tree returned for `len` is `planScalar len` / `planSse len` whatever
+                               the history; AVX: a concrete history on which the tree differs
 
 Naming: the task's `CacheInv ty c` is `CacheInvSpec ty c` here, because `RFV.CacheInv c` already names the length-only
 invariant in `Proofs/AvxTotal.lean` (the task's `CacheInvLen`).
@@ -298,14 +300,85 @@ example : planStep .sse .f32 { fwd := [(12, .bfly 12)], inv := [] } 12 false
     = .ok (.bfly 12, { fwd := [(12, .bfly 12)], inv := [] }) :=
   planStep_idempotent .sse .f32 PlannerState.empty _ 12 false _ (stateInv_empty _ _) (by rfl)
 
-/-! ## 7. canonicity
+/-! ## 7. canonicity: scalar / SSE trees do not depend on the history; AVX trees do -/
 
--- OPEN: `planStep .scalar ty s len inv = .ok (t, s') → (∀ k t', (s.cache inv).get? k = some t' → t' = canon k) →
---        t = canon len`  with `canon k` the tree the fresh planner builds for `k`.
--- It needs "recipes are functions of the length" (the sub-recipe of `planScalar n` for a child of length `L` is
--- `planScalar L`), i.e. uniqueness of `PrimeFactors.WF` factorisations threaded through `scalarWithFactors`; not
--- attempted here. What *is* proved above: determinism (5), and that once an instance is cached for `(len, d)` it is the
--- one returned forever after (6); by `planHistory_good` every instance, canonical or not, is a correct DFT.
--/
+/-- scalar / SSE recipes are functions of the length: every sub-recipe of the recipe designed for `n` is the recipe
+the planner designs for the sub-recipe's own length (`Hered`, by uniqueness of well-formed factorisations
+`PrimeFactors.WF.unique` and fuel irrelevance) -/
+theorem planScalar_subrecipes {n : Nat} {r : Recipe} (h : planScalar n = .ok r) : Hered planScalar r :=
+  planScalar_hered h
+
+theorem planSse_subrecipes {n : Nat} {r : Recipe} (h : planSse n = .ok r) : Hered planSse r :=
+  planSse_hered h
+
+/-- what `Hered P r` says, spelled out -/
+theorem hered_iff (P : Nat → Except String Recipe) (r : Recipe) :
+    Hered P r ↔ (P r.len = .ok r ∧ ∀ c ∈ r.children, Hered P c) :=
+  ⟨fun h => ⟨h.top, h.child⟩, fun h => Hered.mk r h.1 h.2⟩
+
+/-- one request: if every instance cached for the requested direction is the canonical tree of its key
+(`canon k` := the recipe `kind.design k`, i.e. `planScalar k` / `planSse k`), then the returned tree is the canonical
+tree of `len`, and the cache stays canonical. (The built instance tree *is* the recipe tree.) -/
+theorem planStep_canonical (kind : PlannerKind) (hk : kind = .scalar ∨ kind = .sse) (ty : ElemTy)
+    (s s' : PlannerState) (len : Nat) (inverse : Bool) (t : Recipe)
+    (h : planStep kind ty s len inverse = .ok (t, s'))
+    (hc : ∀ k t', (s.cache inverse).get? k = some t' → kind.design k = .ok t') :
+    kind.design len = .ok t ∧ ∀ k t', (s'.cache inverse).get? k = some t' → kind.design k = .ok t' :=
+  planStep_canon kind (by rcases hk with rfl | rfl <;> rfl) ty s s' len inverse t hc h
+
+/-- the canonical tree is the one the fresh planner builds -/
+theorem planStep_fresh (kind : PlannerKind) (hk : kind = .scalar ∨ kind = .sse) (ty : ElemTy) (len : Nat)
+    (inverse : Bool) (t : Recipe) (s' : PlannerState)
+    (h : planStep kind ty PlannerState.empty len inverse = .ok (t, s')) : kind.design len = .ok t :=
+  (planStep_canon kind (by rcases hk with rfl | rfl <;> rfl) ty _ s' len inverse t
+    (canonState_empty _ inverse) h).1
+
+/-- a whole history from the fresh planner: the `i`-th returned tree is `planScalar` / `planSse` of the requested
+length — whatever was requested before, in whichever direction -/
+theorem planHistory_canonical (kind : PlannerKind) (hk : kind = .scalar ∨ kind = .sse) (ty : ElemTy)
+    (reqs : List (Nat × Bool)) (ts : List Recipe) (s' : PlannerState)
+    (h : planHistory kind ty reqs PlannerState.empty = .ok (ts, s')) :
+    ∃ hlen : ts.length = reqs.length, ∀ i (hi : i < reqs.length),
+      kind.design (reqs[i]).1 = .ok (ts[i]'(hlen ▸ hi)) := by
+  obtain ⟨hall, _⟩ := planHistory_canon kind (by rcases hk with rfl | rfl <;> rfl) ty reqs _ ts s'
+    (canonState_empty _) h
+  exact forall₂_index hall
+
+/-- history independence of the *tree* (scalar, SSE): two planners with different request histories, asked — at any
+point, in any direction — for the same length, return the same tree -/
+theorem planHistory_history_independent (kind : PlannerKind) (hk : kind = .scalar ∨ kind = .sse) (ty : ElemTy)
+    (reqs₁ reqs₂ : List (Nat × Bool)) (ts₁ ts₂ : List Recipe) (s₁ s₂ : PlannerState)
+    (h₁ : planHistory kind ty reqs₁ PlannerState.empty = .ok (ts₁, s₁))
+    (h₂ : planHistory kind ty reqs₂ PlannerState.empty = .ok (ts₂, s₂))
+    (i j : Nat) (hi : i < reqs₁.length) (hj : j < reqs₂.length) (hlen : (reqs₁[i]).1 = (reqs₂[j]).1) :
+    ts₁[i]? = ts₂[j]? := by
+  obtain ⟨hl₁, hc₁⟩ := planHistory_canonical kind hk ty reqs₁ ts₁ s₁ h₁
+  obtain ⟨hl₂, hc₂⟩ := planHistory_canonical kind hk ty reqs₂ ts₂ s₂ h₂
+  have e₁ := hc₁ i hi
+  have e₂ := hc₂ j hj
+  rw [hlen, e₂] at e₁
+  rw [List.getElem?_eq_getElem (hl₁ ▸ hi), List.getElem?_eq_getElem (hl₂ ▸ hj)]
+  first | exact congrArg some (Except.ok.inj e₁) | exact congrArg some (Except.ok.inj e₁).symm
+
+example : planStep .scalar .f64 PlannerState.empty 24 true = .ok (.bfly 24, { fwd := [], inv := [(24, .bfly 24)] }) ∧
+    PlannerKind.design .scalar 24 = .ok (.bfly 24) :=
+  ⟨by rfl, planStep_fresh .scalar (Or.inl rfl) .f64 24 true _ _ (by rfl)⟩
+
+/-- AVX trees are NOT canonical: the tree returned for a length depends on what was requested before, because
+`construct_plan` caches every intermediate stage under its length and `plan_fft` answers `cached(len)` for it.
+With f64 + AVX2: the fresh planner builds 216 as `12xn(Butterfly18)`, but after a request for 864 — planned as
+`4xn(6xn(Butterfly36))` — the stage `6xn(Butterfly36)` is what a request for 216 returns.
+(Both are correct DFTs by `planHistory_isDft`; only the shape differs.) -/
+theorem avx_tree_depends_on_history :
+    ((planHistory (.avx true) .f64 [(216, false)] PlannerState.empty).toOption.map (·.1))
+      = some [.avxMixedRadix 12 (.avxBfly 18)] ∧
+    ((planHistory (.avx true) .f64 [(864, false), (216, false)] PlannerState.empty).toOption.map (·.1))
+      = some [.avxMixedRadix 4 (.avxMixedRadix 6 (.avxBfly 36)), .avxMixedRadix 6 (.avxBfly 36)] := by
+  constructor <;> rfl
+
+-- OPEN (not attempted): canonicity up to *history-closed* caches for AVX, i.e. a characterisation of which trees a
+-- length can get; and `planStep` totality for scalar / SSE (no constructor assert fires on planner recipes — the
+-- `SpecOK` closure of `Proofs/SpecLemmas.lean`), under which `planHistory_canonical` would also give
+-- "the scalar / SSE planner never fails, and returns exactly `planScalar len` / `planSse len`".
 
 end RFV
